@@ -168,6 +168,7 @@ type Raft struct {
 	resp        map[uint64]interface{}
 	snapReq     bool
 	snapBusy    bool
+	floor       uint64 // highest index an earlier incarnation of this member had applied
 	applierDone bool
 	trailing    uint64
 	Snapshots   int
@@ -186,6 +187,12 @@ func NewRaft(conf *Config, fsm FSM, logs LogStore, stable StableStore, snaps Sna
 		return nil, errors.New("raft(sim): NewRaft outside a simulated task")
 	}
 	r := &Raft{c: c, id: conf.LocalID, simNode: t.Node, fsm: fsm, logs: logs, stable: stable, snaps: snaps, conf: conf, resp: map[uint64]interface{}{}}
+	if prev := c.nodes[r.id]; prev != nil {
+		r.floor = prev.applied
+		if prev.floor > r.floor {
+			r.floor = prev.floor
+		}
+	}
 	// restore from the newest usable snapshot
 	metas, err := snaps.List()
 	if err != nil {
@@ -282,6 +289,11 @@ func (r *Raft) scheduleGrant() {
 				k = 1 + r.c.Sim.Choose(behind, "raft-batch")
 			}
 			upTo := r.commit + uint64(k)
+			// A restarted member never learns a commit index below what it had applied before: commit
+			// indexes do not go back, and whoever leads now knows at least as much.
+			if upTo < r.floor {
+				upTo = r.floor
+			}
 			last, _ := r.logs.LastIndex()
 			for i := last + 1; i <= upTo; i++ {
 				e := r.c.Log[i-1]
